@@ -1010,8 +1010,13 @@ def matrix_inverse_pth_root_eigh(
   if padding_start is not None:
     e *= jnp.flip(ix)
   mm = functools.partial(jnp.matmul, precision=precision)
-  inv_e = jnp.where(e == 0.0, 0.0,
-                    jnp.power(jnp.maximum(e, ridge_epsilon), alpha))
+  # Eigenvalues that are still non-positive after clipping (singular input
+  # with a zero ridge) span the null space: treat them like exact zeros
+  # instead of raising 0 to a negative power.
+  clipped_e = jnp.maximum(e, ridge_epsilon)
+  is_null = jnp.logical_or(e == 0.0, clipped_e <= 0.0)
+  inv_e = jnp.where(is_null, 0.0,
+                    jnp.power(jnp.where(is_null, 1.0, clipped_e), alpha))
   val = mm(mm(u, jnp.diag(inv_e)), u.T)
   root = u * jnp.sqrt(inv_e)
   val = mm(root, root.T)
